@@ -15,6 +15,7 @@ Which LTS models which skeleton:
   deriveJoinV2, deriveJoinV3         K/JoinSelect with n = 2, 3
   derivePipelineP                    K/Pipeline   (= deriveJoinCC ∘ deriveFmap)
   deriveDo2, deriveDo3, deriveDo4    K/Do with n = 2, 3, 4
+  deriveDo3b, deriveDo2b             K/Do with n = 3, 2 (second package: two Do calls, the larger arity first)
 -/
 import GoderiveModel.Generated.ConcFacts
 
@@ -23,7 +24,11 @@ namespace Goderive.K
 def expectedSkeletons : List (String × String) := [
   ("deriveDo2",
    "(func (f0 f1) (def (errChan) (make-chan 0)) (var v0) (go (var v0err) (set (v0 v0err) (f0)) (send errChan v0err)) (var v1) (go (var v1err) (set (v1 v1err) (f1)) (send errChan v1err)) (var err) (for ((def (i) 0)) ((< i 2)) ((++ i)) (def (errc) (recv errChan)) (if (!= errc nil) (then (if (== err nil) (then (set (err) errc)))))) (return v0 v1 err))"),
+  ("deriveDo2b",
+   "(func (f0 f1) (def (errChan) (make-chan 0)) (var v0) (go (var v0err) (set (v0 v0err) (f0)) (send errChan v0err)) (var v1) (go (var v1err) (set (v1 v1err) (f1)) (send errChan v1err)) (var err) (for ((def (i) 0)) ((< i 2)) ((++ i)) (def (errc) (recv errChan)) (if (!= errc nil) (then (if (== err nil) (then (set (err) errc)))))) (return v0 v1 err))"),
   ("deriveDo3",
+   "(func (f0 f1 f2) (def (errChan) (make-chan 0)) (var v0) (go (var v0err) (set (v0 v0err) (f0)) (send errChan v0err)) (var v1) (go (var v1err) (set (v1 v1err) (f1)) (send errChan v1err)) (var v2) (go (var v2err) (set (v2 v2err) (f2)) (send errChan v2err)) (var err) (for ((def (i) 0)) ((< i 3)) ((++ i)) (def (errc) (recv errChan)) (if (!= errc nil) (then (if (== err nil) (then (set (err) errc)))))) (return v0 v1 v2 err))"),
+  ("deriveDo3b",
    "(func (f0 f1 f2) (def (errChan) (make-chan 0)) (var v0) (go (var v0err) (set (v0 v0err) (f0)) (send errChan v0err)) (var v1) (go (var v1err) (set (v1 v1err) (f1)) (send errChan v1err)) (var v2) (go (var v2err) (set (v2 v2err) (f2)) (send errChan v2err)) (var err) (for ((def (i) 0)) ((< i 3)) ((++ i)) (def (errc) (recv errChan)) (if (!= errc nil) (then (if (== err nil) (then (set (err) errc)))))) (return v0 v1 v2 err))"),
   ("deriveDo4",
    "(func (f0 f1 f2 f3) (def (errChan) (make-chan 0)) (var v0) (go (var v0err) (set (v0 v0err) (f0)) (send errChan v0err)) (var v1) (go (var v1err) (set (v1 v1err) (f1)) (send errChan v1err)) (var v2) (go (var v2err) (set (v2 v2err) (f2)) (send errChan v2err)) (var v3) (go (var v3err) (set (v3 v3err) (f3)) (send errChan v3err)) (var err) (for ((def (i) 0)) ((< i 4)) ((++ i)) (def (errc) (recv errChan)) (if (!= errc nil) (then (if (== err nil) (then (set (err) errc)))))) (return v0 v1 v2 v3 err))"),
